@@ -676,12 +676,13 @@ impl ParserListener for Screen {
             // enabled, move the cursor to the beginning of the next line,
             // otherwise replace characters already displayed with newly
             // entered.
-            if self.cursor.x == self.columns {
+            // Characters without width occupy no cell and never wrap.
+            if self.cursor.x == self.columns && char_width > 0 {
                 if self.mode.contains(&DECAWM) {
                     self.dirty.insert(self.cursor.y);
                     self.cariage_return();
                     self.linefeed();
-                } else if char_width > 0 {
+                } else {
                     self.cursor.x = self.cursor.x.saturating_sub(char_width as u32);
                 }
             }
